@@ -143,7 +143,8 @@ def _run_native(d, hs, res, per_timeout):
     env["CARGO_NET_OFFLINE"] = "true"
     env["CARGO_TARGET_DIR"] = os.path.join(d, "target-native")
     env["CARGO_PROFILE_RELEASE_DEBUG_ASSERTIONS"] = "false"
-    cmd = ["cargo", "test", "--release", "--lib", "--offline", "--"] + ["--exact"] * 0 + [h["harness"] for h in hs]
+    pkg = [x for x in set(h.get("package", "") for h in hs) if x]
+    cmd = ["cargo", "test", "--release", "--lib", "--offline"] + (["-p", pkg[0]] if pkg else []) + ["--"] + [h["harness"] for h in hs]
     res.cmds.append("(scratch copy of /repo + injected #[cfg(test)] module) cargo test --release --lib --offline -- %s" % " ".join(h["harness"] for h in hs))
     t0 = time.time()
     try:
@@ -298,7 +299,7 @@ def run_groups(groups, repo, prop, tier, only=None):
         d = make_scratch(repo, groups, support)
         batches = {}
         for h in hs:
-            batches.setdefault((h.get("mode", "rel"), h.get("features", ""), h.get("solver", "")), []).append(h)
+            batches.setdefault((h.get("mode", "rel"), h.get("features", "") + ("|pkg=" + h["package"] if h.get("package") else ""), h.get("solver", "")), []).append(h)
         for (mode, features, solver), bh in sorted(batches.items()):
             per_timeout = max(int(h.get("timeout", "300")) for h in bh)
             jobs = min(8, len(bh))
